@@ -642,7 +642,7 @@ func stressBuckets(in string) []string {
 
 func genSyntax(env vh.Env, r *vh.Rand) []Case {
 	var cases []Case
-	for i, n := 0, env.N(250, 12); i < n; i++ {
+	for i, n := 0, env.N(150, 20); i < n; i++ {
 		c := genListStressCase(r.Fork())
 		cases = append(cases, c)
 		var ms labels.Matchers
@@ -651,10 +651,10 @@ func genSyntax(env vh.Env, r *vh.Rand) []Case {
 		}
 		cases = append(cases, Case{Kind: "parse", Input: []byte(ms.String()), Src: "printed list, backslash/quote before the comma"})
 	}
-	for i, n := 0, env.N(250, 12); i < n; i++ {
+	for i, n := 0, env.N(150, 20); i < n; i++ {
 		cases = append(cases, Case{Kind: "parse", Input: []byte(genRawListStress(r.Fork())), Src: "raw list, backslash/quote before the comma"})
 	}
-	for i, n := 0, env.N(700, 12); i < n; i++ {
+	for i, n := 0, env.N(450, 18); i < n; i++ {
 		c := genPrintCase(r.Fork())
 		cases = append(cases, c)
 		// every printed text is also a parse case (all entry points compared with the model)
@@ -671,10 +671,10 @@ func genSyntax(env vh.Env, r *vh.Rand) []Case {
 	for _, s := range seeds {
 		cases = append(cases, Case{Kind: "parse", Input: []byte(s), Src: "seed (repo unit/fuzz/compliance tests)"})
 	}
-	for i, n := 0, env.N(700, 12); i < n; i++ {
+	for i, n := 0, env.N(450, 18); i < n; i++ {
 		cases = append(cases, Case{Kind: "parse", Input: []byte(genRawGrammar(r.Fork())), Src: "grammar-directed"})
 	}
-	for i, n := 0, env.N(500, 12); i < n; i++ {
+	for i, n := 0, env.N(350, 17); i < n; i++ {
 		rr := r.Fork()
 		cases = append(cases, Case{Kind: "parse", Input: []byte(mutate(rr, vh.Pick(rr, seeds))), Src: "mutated seed"})
 	}
